@@ -471,6 +471,11 @@ class Body:
                 self._valcache[l] = v
                 return v
         whole = [d for d in self.defs.get(l, []) if d[1] == 'call' or not d[2]['lhs']['p']]
+        if 1 <= l <= self.arg_count:
+            # a re-assigned parameter has (at least) two definitions: the caller's and the store
+            v = V('local', l)
+            self._valcache[l] = v
+            return v
         if d_is_call_only(whole):
             bb = whole[0][0]
             if not whole[0][2]['dest']['p']:
@@ -518,6 +523,21 @@ class Body:
                 nv = nv.with_proj(p)
             v = nv
             d += 1
+        return v
+
+    def trace_chain(self, v, chain):
+        """Follow v through exactly the given sequence of calls (argument 0 each time);
+        returns None when a step does not match."""
+        for pat in chain:
+            if v.kind != 'call':
+                return None
+            c = self.call_at(v.key)
+            if c is None or not c.is_(*([pat] if isinstance(pat, str) else pat)) or not c.args:
+                return None
+            nv = self.val(c.args[0])
+            for p in v.projs:
+                nv = nv.with_proj(p)
+            v = nv
         return v
 
     def agg_field(self, v):
